@@ -15,4 +15,49 @@ let () =
   register "mm" (function [n; sp] -> of_z (M.mm_f64 (to_z n) (to_mmspec sp)) | _ -> raise (Parse_error "mm"));
   register "spec_mm" (function [n; sp] -> of_z (M.solr_mm (to_z n) (to_mmspec sp)) | _ -> raise (Parse_error "spec_mm"))
 
+
+(* ---- results ---- *)
+let of_result f = function
+  | M.Done a -> L [A "done"; f a]
+  | M.Fault (k, b, i) -> L [A "fault"; A (match k with M.Rd -> "R" | M.Wr -> "W"); of_n b; of_n i]
+  | M.OutOfFuel -> L [A "fuel"]
+let of_pyres f = function M.PyOk a -> f a | M.PyValueError -> L [A "valueerror"]
+let nl = to_list to_n
+let of_nl = of_list of_n
+let of_nn = of_pair of_n of_n
+
+(* ---- C12/C14: kernels ---- *)
+let () =
+  register "intersect_drop" (function [l; r; m] -> of_result (of_pair of_nl of_nl) (M.intersect_drop (nl l) (nl r) (to_n m)) | _ -> raise (Parse_error "args"));
+  register "intersect_keep" (function [l; r; m] -> of_result (of_pair of_nl of_nl) (M.intersect_keep (nl l) (nl r) (to_n m)) | _ -> raise (Parse_error "args"));
+  register "adjacent" (function [l; r; m] -> of_result (of_pair of_nl of_nl) (M.adjacent (nl l) (nl r) (to_n m)) | _ -> raise (Parse_error "args"));
+  register "int_adj" (function [l; r; m] ->
+      of_result (fun o -> L [of_nl o.M.ia_lo; of_nl o.M.ia_ro; of_nl o.M.ia_alo; of_nl o.M.ia_aro])
+        (M.intersect_with_adjacents (nl l) (nl r) (to_n m)) | _ -> raise (Parse_error "args"));
+  register "merge" (function [l; r] -> of_result of_nl (M.merge (nl l) (nl r)) | _ -> raise (Parse_error "args"));
+  register "merge_drop" (function [l; r] -> of_result of_nl (M.merge_drop (nl l) (nl r)) | _ -> raise (Parse_error "args"));
+  register "sort_merge_counts" (function [a; b; c; d] -> of_result (of_list of_nn) (M.sort_merge_counts (nl a) (nl b) (nl c) (nl d)) | _ -> raise (Parse_error "args"));
+  register "unique" (function [a; s] -> of_result of_nl (M.unique (nl a) (to_n s)) | _ -> raise (Parse_error "args"));
+  register "binary_search" (function [a; t; m; s] -> of_result (of_pair of_n of_bool) (M.binary_search (nl a) (to_n t) (to_n m) (to_n s)) | _ -> raise (Parse_error "args"));
+  register "galloping_search" (function [a; t; m; s] -> of_result (of_pair of_n of_bool) (M.galloping_search (nl a) (to_n t) (to_n m) (to_n s)) | _ -> raise (Parse_error "args"));
+  register "popcount64" (function [a] -> of_nl (M.popcount64 (nl a)) | _ -> raise (Parse_error "args"));
+  register "popcount_reduce_at" (function [a; b] -> of_pyres (of_result (of_list of_nn)) (M.popcount_reduce_at (nl a) (nl b)) | _ -> raise (Parse_error "args"));
+  register "key_sum_over" (function [a; b] -> of_pyres (of_result (of_list of_nn)) (M.key_sum_over (nl a) (nl b)) | _ -> raise (Parse_error "args"));
+  register "popcount64_reduce" (function [a; s; m] -> of_result (of_list of_nn) (M.popcount64_reduce (nl a) (to_n s) (to_n m)) | _ -> raise (Parse_error "args"));
+  register "payload_slice" (function [a; m; lo; hi] -> of_nl (M.payload_slice (nl a) (to_n m) (to_n lo) (to_n hi)) | _ -> raise (Parse_error "args"));
+  register "as_dense" (function [i; v; n] -> of_pyres (of_result of_nl) (M.as_dense (nl i) (nl v) (to_n n)) | _ -> raise (Parse_error "args"));
+  (* specs *)
+  register "spec_intersect_drop" (function [l; r; m] -> of_pair of_nl of_nl (M.intersect_drop_spec (nl l) (nl r) (to_n m)) | _ -> raise (Parse_error "args"));
+  register "spec_intersect_keep" (function [l; r; m] -> of_pair of_nl of_nl (M.intersect_keep_spec (nl l) (nl r) (to_n m)) | _ -> raise (Parse_error "args"));
+  register "spec_adjacent" (function [l; r; m] -> of_pair of_nl of_nl (M.adjacent_spec (nl l) (nl r) (to_n m) (M.lowbit (to_n m))) | _ -> raise (Parse_error "args"));
+  register "spec_merge" (function [l; r] -> of_nl (M.merge_spec (nl l) (nl r)) | _ -> raise (Parse_error "args"));
+  register "spec_merge_drop" (function [l; r] -> of_nl (M.merge_drop_spec (nl l) (nl r)) | _ -> raise (Parse_error "args"));
+  register "spec_unique" (function [a; s] -> of_nl (M.unique_spec (nl a) (to_n s)) | _ -> raise (Parse_error "args"));
+  register "spec_search" (function [a; t; m; s] -> of_pair (of_option of_n) of_bool (M.search_spec (nl a) (to_n t) (to_n m) (to_n s)) | _ -> raise (Parse_error "args"));
+  register "spec_popcount_reduce_at" (function [a; b] -> of_list of_nn (M.popcount_reduce_at_spec (nl a) (nl b)) | _ -> raise (Parse_error "args"));
+  register "spec_key_sum_over" (function [a; b] -> of_list of_nn (M.key_sum_over_spec (nl a) (nl b)) | _ -> raise (Parse_error "args"));
+  register "spec_popcount64_reduce" (function [a; s; m] -> of_list of_nn (M.popcount64_reduce_spec (nl a) (to_n s) (to_n m)) | _ -> raise (Parse_error "args"));
+  register "spec_sort_merge_counts" (function [a; b; c; d] -> of_list of_nn (M.sort_merge_counts_spec (nl a) (nl b) (nl c) (nl d)) | _ -> raise (Parse_error "args"));
+  register "spec_as_dense" (function [i; v; n] -> of_nl (M.as_dense_spec (nl i) (nl v) (to_n n)) | _ -> raise (Parse_error "args"))
+
 let () = main ()
